@@ -35,13 +35,17 @@ Definition S_symm_seq : Prop :=
     is_cc_partition g (fst (symm_seq g)) (snd (symm_seq g))
     /\ is_scc_partition g (fst (symm_seq g)) (snd (symm_seq g)).
 
-(** parallel connected components: for every schedule; moreover the result does not depend
-    on the schedule at all (it is the sequential one) *)
+(** parallel connected components: for every schedule *)
 Definition S_symm_par : Prop :=
   forall sched g, (forall i l, Permutation (sched i l) l) -> wf_graph g -> symmetric g ->
     is_cc_partition g (fst (symm_par sched g)) (snd (symm_par sched g))
-    /\ is_scc_partition g (fst (symm_par sched g)) (snd (symm_par sched g))
-    /\ symm_par sched g = symm_seq g.
+    /\ is_scc_partition g (fst (symm_par sched g)) (snd (symm_par sched g)).
+
+(** moreover the result does not depend on the schedule at all: it is the sequential one,
+    numbering included *)
+Definition S_symm_par_eq_seq : Prop :=
+  forall sched g, (forall i l, Permutation (sched i l) l) -> wf_graph g -> symmetric g ->
+    symm_par sched g = symm_seq g.
 
 Definition S_kosaraju : Prop :=
   forall g gt, wf_graph g -> is_transpose g gt ->
